@@ -46,7 +46,15 @@ theorem makeUnit_effect (s : RegState) (c : Nat) (sym : String) (defn : Option I
     sym ∉ s.symMap.map Prod.fst ∧ sym ≠ "" ∧
     s'.classes = s.classes.modify c (fun ci => { ci with units := ci.units ++ [uid] }) ∧
     s'.clsMap = s.clsMap ∧ s'.opCache = s.opCache ∧
-    (s'.termMap = s.termMap ∨ s'.termMap = s.termMap ++ [((s'.unit uid).normDef, uid)]) := by
+    (s'.termMap = s.termMap ∨ s'.termMap = s.termMap ++ [((s'.unit uid).normDef, uid)]) ∧
+    (s'.unit uid).normDef = (match defn with
+      | some d => termNormalized s.unitEnv d
+      | none => [(.atom uid, 1)]) ∧
+    (s'.unit uid).equiv = (if isRef then (some 1 : Option Rat) else match defn with
+      | some d => some (match numElem (termNormalized s.unitEnv d) with
+          | some n => if n = 0 then (1 : ℚ) else n
+          | none => (1 : ℚ))
+      | none => none) := by
   unfold RegState.makeUnit at h
   simp only at h
   split at h
@@ -58,7 +66,7 @@ theorem makeUnit_effect (s : RegState) (c : Nat) (sym : String) (defn : Option I
       obtain ⟨rfl, rfl⟩ := h
       have hnone' : (List.lookup sym s.symMap).isSome = false := by
         cases hl : List.lookup sym s.symMap <;> simp_all
-      refine ⟨rfl, ?_, ?_, ?_, ?_, rfl, lookup_none_not_mem _ _ hnone', ?_, rfl, rfl, rfl, ?_⟩
+      refine ⟨rfl, ?_, ?_, ?_, ?_, rfl, lookup_none_not_mem _ _ hnone', ?_, rfl, rfl, rfl, ?_, ?_, ?_⟩
       · simp [RegState.unit]
       · simp [RegState.unit]
       · simp [RegState.unit]
@@ -68,6 +76,12 @@ theorem makeUnit_effect (s : RegState) (c : Nat) (sym : String) (defn : Option I
         split
         · left; rfl
         · right; simp [RegState.unit]
+      · simp only [RegState.unit, List.getD_eq_getElem?_getD, List.getElem?_append_right (le_refl _),
+          Nat.sub_self, List.getElem?_cons_zero, Option.getD_some]
+        cases defn <;> rfl
+      · simp only [RegState.unit, List.getD_eq_getElem?_getD, List.getElem?_append_right (le_refl _),
+          Nat.sub_self, List.getElem?_cons_zero, Option.getD_some]
+        cases defn <;> cases isRef <;> rfl
 
 
 end QM
